@@ -469,6 +469,23 @@ def ob_lc2_order(ctx, tier):
                 if q.idx > b.idx and not zero:
                     failing.append("synthetic_event_does_not_force_zero_timeout")
                     cex = cex or fmt_path(p)
+        # without a synthetic event the FIRST wait gets the caller's timeout, untouched (C12: nothing but a synthetic event
+        # -- not queued idles, not the number of sources -- may shorten it; the clamp to the timers is Poll::poll's)
+        any_syn = False
+        for b in bs:
+            try:
+                opt = b.ret.payloads["Ok"][0]
+                if isinstance(opt, Enum) and not entails(ctx, p.pc, z3.Or(dz(b.ret.disc) != 0, dz(opt.disc) == 0))[0]:
+                    any_syn = True
+            except Exception:
+                any_syn = True
+        if polls and not any_syn:
+            q = polls[0]
+            tos = [a for a in q.args[1:] if isinstance(a, Enum) and "Duration" in (a.ty or "")] or [q.args[-1]]
+            to = tos[0]
+            if not (isinstance(to, Enum) and (getattr(to, "name", "") == "a2" or "a2" in repr(to)) and not isinstance(to.disc, int)):
+                failing.append("first_wait_does_not_get_the_callers_timeout")
+                cex = cex or fmt_path(p)
     return result(not failing, witness and wit_syn, failing, cex, "synthetic witness=%s" % wit_syn, paths, cfg)
 
 
@@ -1158,6 +1175,14 @@ def ob_chan_process(ctx, tier):
         nexts = [e for e in p.trace if e.kind == "iter_next"]
         if tr:
             c.witness = True
+        # the queue is only touched for an event the inner ping source ACCEPTED (its Generic matched the token -- which
+        # unregister() clears, that is what silences a disabled channel within the batch it was disabled in -- and the
+        # eventfd counter was read): no dequeue and no callback on a path without that read
+        rd = calls(p, r"rustix::io::read")
+        if (tr or cbs) and (not rd or rd[0].idx > (tr + cbs)[0].idx if (tr or cbs) else False):
+            first = min(e.idx for e in tr + cbs)
+            if not rd or rd[0].idx > first:
+                c.fail("queue_drained_for_an_event_the_ping_source_did_not_accept", p)
         # each try_recv outcome
         for t in tr:
             r = t.ret
